@@ -3,6 +3,7 @@ package netconf
 import (
 	"context"
 	"fmt"
+	"github.com/scrapli/scrapligo/util/verifhook"
 	"time"
 
 	"github.com/scrapli/scrapligo/response"
@@ -74,6 +75,7 @@ func (d *Driver) sendRPC(
 		var data []byte
 
 		for {
+			verifhook.Spin("nc.rpc.poll")
 			if ctx.Err() != nil {
 				// timer expired, we're already done, nobody will be listening for our send anyway
 				return
@@ -87,6 +89,7 @@ func (d *Driver) sendRPC(
 			time.Sleep(5 * time.Microsecond) //nolint: mnd
 		}
 
+		verifhook.Point("nc.rpc.done-send")
 		done <- data
 	}()
 
